@@ -25,7 +25,7 @@ from vlib.tlc import TlcError
 POOL = ["a", "b", "failed", "text", "table"]            # = Pool of Context.tla
 LAYERS = [None, "testrun", "feature", "rule", "scenario", "no_such_layer"]
 OPNAME = ["", "push", "pop", "set", "setroot", "get", "has", "del", "use_or_assign", "use_or_create",
-          "add_cleanup", "use_fixture", "switch_mode", "execute_steps", "end_run"]
+          "add_cleanup", "use_fixture", "switch_mode", "execute_steps", "end_run", "execute_nested", "new_context"]
 EXCNAME = ["", "AttributeError", "LookupError", "KeyError", "CleanupBoom", "SetupBoom", "AssertionError",
            "ValueError", "TypeError", "other"]
 MISSING = object()
@@ -36,12 +36,16 @@ MISSING = object()
 #   *_cleanups             cleanup alphabet (3 callables x raising x bare/args x layer=, 4 fixture kinds)  len 2 / 3
 #   *_thorough_cleanups4   cleanup alphabet without args/fixtures                     len 4 below feature+scenario
 #   *_reduced              1 name, 2 values: push pop set setroot del                 len 5 / 6 from the testrun scope
+#   *_exec                 nested execute_steps: depth 2/3, every none/text/table shape per level, innermost ok/fails
+#   *_two                  two Contexts in one process: cleanups/attributes of the first must not reach the second
 #   *_thorough_sim         complete alphabet incl. get/has, -simulate, 50 operations
 # get/has are not separate operations in the exhaustive parts: the probe after EVERY operation does both for all names
 PARTS = {
-    "quick": ["Context_MC_quick.cfg", "Context_MC_quick_cleanups.cfg", "Context_MC_quick_reduced.cfg"],
+    "quick": ["Context_MC_quick.cfg", "Context_MC_quick_cleanups.cfg", "Context_MC_quick_reduced.cfg",
+              "Context_MC_quick_exec.cfg", "Context_MC_quick_two.cfg"],
     "thorough": ["Context_MC_thorough.cfg", "Context_MC_thorough_attrs4.cfg", "Context_MC_thorough_cleanups.cfg",
-                 "Context_MC_thorough_cleanups4.cfg", "Context_MC_thorough_reduced.cfg"],
+                 "Context_MC_thorough_cleanups4.cfg", "Context_MC_thorough_reduced.cfg",
+                 "Context_MC_thorough_exec.cfg", "Context_MC_thorough_two.cfg"],
 }
 SIM_CFG = "Context_MC_thorough_sim.cfg"
 
@@ -78,11 +82,33 @@ class World(object):
 
         def sub_fails(context):
             assert False, "sub-step fails"
+
+        def nest_step(context):
+            # the step of nesting level `level`: calls execute_steps for the next level and reports what it sees in
+            # context.text/.table after that call came back (normally or by AssertionError)
+            st = self.nest
+            st["level"] += 1
+            level = st["level"]
+            try:
+                if level < st["depth"]:
+                    try:
+                        context.execute_steps(st["steps"][level + 1])
+                    finally:
+                        st["log"].append(key(st["seq"], 3 + level,
+                                             10 * nest_digit(getattr(context, "text", MISSING), False)
+                                             + nest_digit(getattr(context, "table", MISSING), True)))
+                else:
+                    assert st["ok"], "innermost sub-step fails"
+            finally:
+                st["level"] -= 1
+        self.nest = None
+        self.registry.add_step_definition("given", u"nest step", nest_step)
         self.registry.add_step_definition("given", u"sub ok", sub_ok)
         self.registry.add_step_definition("given", u"sub fails", sub_fails)
         self.feature = parse_feature(u"Feature: F\n  Scenario: S\n    Given sub ok\n", filename=u"c13.feature")
         self.runner = ModelRunner(self.config, [self.feature], step_registry=self.registry)
         self.runner.feature = self.feature
+        self.stale_calls = 0        # cleanups of an earlier history that were executed during a later one
 
     def new_context(self):
         from behave.runner import Context
@@ -90,6 +116,31 @@ class World(object):
         self.runner.context = ctx
         ctx.feature = self.feature          # BEHAVE mode, root scope: what Feature.run does one level deeper
         return ctx
+
+
+def nest_digit(v, table):
+    """0 None, 1 + k: the text / table of nesting level k, 9 anything else"""
+    if v is None:
+        return 0
+    try:
+        if table:
+            name = v.headings[0] if len(v.headings) == 1 else ""
+        else:
+            name = v if isinstance(v, type(u"")) else ""
+        if len(name) == 2 and name[0] == (u"h" if table else u"L") and name[1] in u"0123":
+            return 1 + int(name[1])
+    except Exception:       # pylint: disable=broad-except
+        pass
+    return 9
+
+
+def nest_steps_text(level, shape):
+    text = u"Given nest step\n"
+    if shape == 1:
+        text += u'  """\n  L%d\n  """\n' % level
+    elif shape == 2:
+        text += u"  | h%d |\n  | 1 |\n" % level
+    return text
 
 
 def exc_code(x):
@@ -118,9 +169,10 @@ def replay_history(world, ops):
     from behave.runner import scoped_context_layer, use_context_with_mode, ContextMode, ContextMaskWarning
     from behave.fixture import use_fixture, use_composite_fixture_with, fixture_call_params, fixture
     Table = world.Table
-    ctx = world.new_context()
+    box = [world.new_context()]         # box[0] = the Context in use (operation 16 builds a new one)
     log = []
     funcs = {}
+    alive = [True]
     pushed = []         # how each open scope was pushed: None (_push) or the scoped_context_layer manager
     modes = []          # open use_with_user_mode managers
 
@@ -128,6 +180,9 @@ def replay_history(world, ops):
         fn = funcs.get((ident, raises))
         if fn is None:
             def fn(*args, **kwargs):
+                if not alive[0]:            # called after its history (and its Context) ended
+                    world.stale_calls += 1
+                    return
                 if args or kwargs:
                     k = args[0] if (len(args) == 1 and kwargs == {"k": args[0]}) else 999999
                 else:
@@ -142,6 +197,9 @@ def replay_history(world, ops):
     def gen_fixture(context, ident, seq, raises):
         log.append(key(seq, 3, ident))
         yield ident
+        if not alive[0]:
+            world.stale_calls += 1
+            return
         log.append(key(seq, 2, ident))
         if raises:
             raise CleanupBoom(key(seq, 2, ident))
@@ -168,9 +226,14 @@ def replay_history(world, ops):
         if type(v) is int and v in (1, 2):
             return v
         if isinstance(v, Table):
-            return 5
-        if type(v) is type(u"") and v == u"CALLER":
-            return 4
+            d = nest_digit(v, True)
+            return 5 if d == 9 else 19 + d
+        if isinstance(v, type(u"")):
+            if v == u"CALLER":
+                return 4
+            d = nest_digit(v, False)
+            if d != 9:
+                return 9 + d
         return 99
 
     out = []
@@ -178,6 +241,7 @@ def replay_history(world, ops):
         warnings.simplefilter("always")
         for seq, op in enumerate(ops, 1):
             c, x, y, z = op
+            ctx = box[0]
             e = 0
             ret = 0
             n0 = len(log)
@@ -246,8 +310,23 @@ def replay_history(world, ops):
                         ctx.table = None
                     with ctx.use_with_user_mode():
                         ctx.execute_steps(u"Given sub ok\n  | h |\n  | 1 |\n" if x else u"Given sub fails\n  | h |\n  | 1 |\n")
-                else:
+                elif c == 14:
                     ctx._do_cleanups()
+                elif c == 15:
+                    shapes = [(y // 3 ** l) % 3 for l in range(x + 1)]
+                    world.nest = {"depth": x, "ok": bool(z), "level": 0, "seq": seq, "log": log,
+                                  "steps": [None] + [nest_steps_text(l, shapes[l]) for l in range(1, x + 1)]}
+                    with use_context_with_mode(ctx, ContextMode.BEHAVE):        # Step.run of the calling step
+                        ctx.text = u"L0" if shapes[0] == 1 else None
+                        ctx.table = Table([u"h0"], rows=[[u"1"]], line=0) if shapes[0] == 2 else None
+                    with ctx.use_with_user_mode():
+                        ctx.execute_steps(world.nest["steps"][1])
+                else:
+                    # the run is over: a second Context is built in the same process (same runner, same callables)
+                    while modes:
+                        modes.pop().__exit__(None, None, None)
+                    del pushed[:]
+                    box[0] = world.new_context()
             except Exception as ex:     # pylint: disable=broad-except
                 e = exc_code(ex)
                 if e == 4 and c in (2, 14):
@@ -259,6 +338,7 @@ def replay_history(world, ops):
                     text = str(mine[0].message)
                     kind = 1 if "behave runner is masking" in text else 2 if "originally set by behave" in text else 3
                     wcode = 10 * len(mine) + kind
+            ctx = box[0]
             has = []
             val = []
             for name in POOL:
@@ -273,6 +353,7 @@ def replay_history(world, ops):
             out.append([e, wcode, ret] + has + val + log[n0:])
     while modes:
         modes.pop().__exit__(None, None, None)
+    alive[0] = False
     return out
 
 
@@ -294,6 +375,9 @@ def pretty(ops, upto=None):
                                                "!" if y else ""))
         elif c == 13:
             parts.append("execute_steps(%s)" % ("ok" if x else "fails"))
+        elif c == 15:
+            parts.append("execute_nested(%s,%s)" % ("/".join(["none", "text", "table"][(y // 3 ** l) % 3] for l in range(x + 1)),
+                                                    "ok" if z else "innermost fails"))
         else:
             parts.append(OPNAME[c])
     return "; ".join(parts)
@@ -314,6 +398,7 @@ def random_history(rnd, length):
     ops = []
     layers = [1]
     rz = {}
+    second = False
     while len(ops) < length:
         r = rnd.random()
         top = layers[-1]
@@ -353,10 +438,21 @@ def random_history(rnd, length):
                 ops.append([11, ident, 1 if rnd.random() < 0.3 else 0, kind])
             else:
                 ops.append([11, 9 if kind == 2 else 99, 0, kind])
-        elif r < 0.95:
+        elif r < 0.94:
             ops.append([12, 0, 0, 0])
-        else:
+        elif r < 0.97:
             ops.append([13, rnd.choice([0, 1]), 0, 0])
+        elif r < 0.99 or second:
+            depth = rnd.choice([2, 3])
+            ops.append([15, depth, rnd.randrange(3 ** (depth + 1)), rnd.choice([0, 1])])
+        else:
+            # the run ends here; a second Context is built in the same process and the history goes on
+            second = True
+            for _ in range(len(layers) - 1):
+                ops.append([2, 0, 0, 0])
+            layers = [1]
+            ops.append([14, 0, 0, 0])
+            ops.append([16, 0, 0, 0])
     for _ in range(len(layers) - 1):
         ops.append([2, 0, 0, 0])
     ops.append([14, 0, 0, 0])
@@ -513,6 +609,10 @@ def run(chk):
     chk.extra["histories_by_part"] = stats
     chk.extra["operations_by_kind"] = ses.by_op
     chk.extra["emitted_prediction_mismatches"] = ses.mismatching
+    chk.extra["stale_cleanup_calls"] = ses.world.stale_calls
+    if ses.world.stale_calls:
+        chk.note("C13: %d calls of cleanup functions whose history (and Context) had already ended -- state shared "
+                 "between Context objects (judged by the two-Context histories)" % ses.world.stale_calls)
     chk.extra["api_part_wall_s"] = round(time.time() - t_start, 1)
     for s in ses.samples:
         chk.sample(s)
